@@ -240,11 +240,10 @@ Example option_edit_examples :
   option_map (flat_map str) (set_option 10 11 12 13 1 opt_est (T "METHOD") (T "COND")) = Some (T " METHOD=COND INTER") /\
   (* a new option goes behind the last option *)
   option_map (flat_map str) (set_option 10 11 12 13 1 opt_est (T "MAXEVAL") (T "9")) = Some (T " METHOD=1 INTER MAXEVAL=9") /\
-  (* guard of set_option_readback on METHOD *)
-  (forall o, find (keyed 10 11 (T "METHOD")) opt_est = Some o ->
-             match o with Tree _ _ cc => has_rule 12 cc = true | Tok _ _ _ => False end) /\
-  (* remove takes the blank before the option with it; guard of remove_option_total does not hold here (first child is WS)
-     and yet the call succeeds: the guard is sufficient, not necessary *)
+  (* an option without a value gets one, in place *)
+  option_map (flat_map str) (set_option 10 11 12 13 1 opt_est (T "INTER") (T "1")) = Some (T " METHOD=1 INTER=1") /\
+  (* remove takes the blank before the option with it; hypothesis of remove_option_total: every option has a KEY *)
+  forallb (fun n => match is_target 10 11 (T "INTER") n with Some _ => true | None => false end) opt_est = true /\
   option_map (flat_map str) (remove_option 10 11 1 opt_est (T "INTER")) = Some (T " METHOD=1") /\
   option_map (flat_map str) (remove_option 10 11 1 (Tok 2 None (T ";c") :: opt_est) (T "METHOD")) = Some (T ";c INTER") /\
   option_map (flat_map str) (append_option 10 11 12 13 1 3 (opt_est ++ [Tok 3 None [10%N]]) (T "POSTHOC") None)
@@ -253,6 +252,5 @@ Example option_edit_examples :
   flat_map str (prepend_option 10 11 12 13 1 opt_est (T "A") (Some (T "1"))) = T " A=1 METHOD=1 INTER" /\
   option_map (flat_map str) (replace_option 10 11 12 opt_est (T "INTER") (T "INTERACTION")) = Some (T " METHOD=1 INTERACTION").
 Proof.
-  repeat split; try (vm_compute; reflexivity).
-  intros o H. vm_compute in H. injection H as <-. reflexivity.
+  repeat split; vm_compute; reflexivity.
 Qed.
